@@ -20,6 +20,7 @@ from pathlib import Path
 
 from lib import S, B, observe_call
 
+ALSO = ["C03b"]   # second engine for this property: the text layer (csv / json / UTF-8 models; harness/c03b.py, coq/Judge/JC03b.v, coq/Props/C03b.v)
 GEN = ["NameCleanerParams", "HeaderRowParams", "RegistryParams", "RecfmParams", "EstructParams", "Cp037", "TextCodec"]
 RULE = ("streams: long = one table of 1650 (thorough: up to 4000) rows whose fixed-width / EBCDIC images exceed the 32 KiB read buffer, as CSV, fixed text and EBCDIC (RECFM N and F); shapes = every table shape 1..3 columns x 0..2 rows (exhaustive over shapes, distinct cell labels) in CSV, TAB, XLSX, "
         "ODS, NDJSON, fixed text, EBCDIC (RECFM N, F with and without lrecl); plain = workbooks of 1-3 sheets, tables 1-6 columns with "
@@ -38,9 +39,12 @@ RULE = ("streams: long = one table of 1650 (thorough: up to 4000) rows whose fix
         "Non-trivial = at least one data row (branch not 0); distinct = distinct case lines.")
 TRIVIAL_BRANCHES = [0]
 ASSUMPTIONS = [
-    "H_ext (ASSUMED, not proved): each third-party writer/parser pair (csv, openpyxl, pyexcel/pyexcel_ods3, numbers_parser, json, xlrd) "
+    "H_ext (ASSUMED, not proved) for the office formats: each third-party writer/parser pair (openpyxl, pyexcel/pyexcel_ods3, numbers_parser, xlrd) "
     "returns the stored table: parser(writer(W)) = the header row followed by the data rows, every cell the written str; tied by this run "
     "for the generated tables only",
+    "for CSV, tab-delimited text and NDJSON the premise is PROVED (C03_text_premise, C03_facade_text) over executable models of csv.writer / "
+    "csv.reader and of json.dumps / json.loads line by line (coq/Model/Csv.v, coq/Model/Ndjson.v); those models are tied to CPython and to "
+    "the library's unpackers by the second engine C03b (harness/c03b.py) on every run",
     "domain of H_ext per writer: openpyxl raises IllegalCharacterError and the ODS writer ValueError for C0 control characters "
     "(VT, FF, FS, GS, RS, ...) in a cell, so tables containing them are not stored as XLSX/ODS; U+0085, U+2028, U+2029 round-trip in "
     "every third-party format; the ODS pair rewrites quote characters and outer blanks in SHEET names",
